@@ -425,12 +425,19 @@ class Session:
             return ("raise", e.kind, e)
 
     # ---- obligations (postconditions)
-    def ensure(self, label, goal, hyps=(), kind="post"):
+    def ensure(self, label, goal, hyps=(), kind="post", replay=None):
+        if replay is not None:
+            self._next_replay = replay
         if isinstance(goal, Sym):
             goal = zbool(goal)
         if isinstance(goal, (list, tuple)):
             goal = z3.And([zbool(g) if isinstance(g, Sym) else (z3.BoolVal(g) if isinstance(g, bool) else g) for g in goal]) if goal else True
-        self.ctx.oblige(f"{self.prefix}/{kind}:{label}", goal, hyps, kind)
+        meta = None
+        rp = getattr(self, "_next_replay", None)
+        if rp is not None:
+            meta = {"replay": rp}
+            self._next_replay = None
+        self.ctx.oblige(f"{self.prefix}/{kind}:{label}", goal, hyps, kind, meta)
 
     def lemma(self, label, goal, hyps=()):
         """prove `hyps => goal` as its own obligation, then use it (hint for nonlinear arithmetic)"""
@@ -490,7 +497,7 @@ class Session:
                 out.append(fn(list(combo)))
         return out
 
-    def forall(self, label, tensor, pred, kind="post", extra_hyps=(), cases=None):
+    def forall(self, label, tensor, pred, kind="post", extra_hyps=(), cases=None, replay=None):
         """obligation: for every index of `tensor`, pred(idx) holds (generic index = Skolem constants).
         cases(idx) -> list of conditions: the obligation is split into one VC per case (proof hint) plus
         an exhaustiveness VC."""
@@ -500,11 +507,11 @@ class Session:
         inst = self.instances(v.shape, idx)
         base = list(hyps) + inst + list(extra_hyps(idx) if callable(extra_hyps) else extra_hyps)
         if cases is None:
-            self.ensure(label, goal, base, kind)
+            self.ensure(label, goal, base, kind, replay=replay(idx) if replay else None)
             return
         cs = cases(idx)
         for n, c in enumerate(cs):
-            self.ensure(f"{label}#case{n}", goal, base + [c], kind)
+            self.ensure(f"{label}#case{n}", goal, base + [c], kind, replay=replay(idx) if replay else None)
         self.ensure(f"{label}#cases-exhaustive", z3.Or(cs), base, kind)
 
     def cover(self, label, cond=True):
